@@ -32,8 +32,11 @@
 (*                         through (FALSE: every map on the way is linked  *)
 (*                         to the map it was reached from — steals the     *)
 (*                         back-link of a map that was moved elsewhere)    *)
-(* Non-vacuity switch (no defect behind it; FALSE = a plausible mutant):   *)
+(* Non-vacuity switches (no defect behind them; FALSE = a plausible mutant):*)
 (*   CacheTestsFlag        __call__ tests the _cached flag, not the value  *)
+(*   FlagAfterLoad         __call__ sets _cached after load() returned     *)
+(*                         (FALSE: before — a load that raises leaves a    *)
+(*                         handle that claims to be cached)                *)
 (***************************************************************************)
 EXTENDS Naturals, Sequences, FiniteSets, TLC
 
@@ -47,14 +50,16 @@ CONSTANTS MapOrder,     \* sequence of map ids (strings); MapOrder[1] is the roo
           Builders,     \* maps the program calls __setitem__ / clear on (and adds layers to)
           Receivers,    \* maps the program calls get / [] / get_static_map on
           Phased,       \* BOOLEAN: build the tree first, `Seal`, then only access it
+          Resnap,       \* BOOLEAN: the map may change after get_static_map(), which may then be called again
           Staging,      \* BOOLEAN: resources may be moved out of a staging map into the main tree (see SetItem)
           KindChoices,  \* set of functions [Hd -> Kinds]: what load() returns
           ClsChoices,   \* set of functions [Names -> NameClasses]: lexical class of each name
           ImplicitMapsLinked, ClearAllLayers, SetItemPopsAllLayers, StaticSlotsUnmangled, CacheTestsFlag,
-          WalkLinksOnlyCreated
+          WalkLinksOnlyCreated, FlagAfterLoad
 
 VARIABLES maps, layers, parent, key,          \* ResourceMap tables and back-links
           cached, value, gen, kind,           \* Handle: _cached, _cache (serial), loads so far, value kind (fixed)
+          armed,                              \* handles whose next load() raises (once)
           cls,                                \* name -> lexical class (fixed)
           sealed,                             \* Phased only: the build phase is over
           snapRoot, sslot, sdict, shn,        \* the snapshot: mirrored root, slots, instance dict, _handle_names
@@ -64,10 +69,10 @@ VARIABLES maps, layers, parent, key,          \* ResourceMap tables and back-lin
           stale,                              \* ghost: places <<map, name, node>> a later assignment of node superseded
           loads                               \* ghost: loads since the last clear, per handle
 
-vars == <<maps, layers, parent, key, cached, value, gen, kind, cls, sealed, snapRoot, sslot, sdict, shn,
+vars == <<maps, layers, parent, key, cached, value, gen, kind, armed, cls, sealed, snapRoot, sslot, sdict, shn,
           ret, loadedNow, abs, stale, loads>>
 tree == <<maps, layers, parent, key, abs, stale>>
-cache == <<cached, value, gen, loads>>
+cache == <<cached, value, gen, loads, armed>>
 snap == <<snapRoot, sslot, sdict, shn>>
 fixed == <<kind, cls>>
 
@@ -119,13 +124,17 @@ Sub(m) == Closure({m}, Len(MapOrder))        \* m and every map below it
 Init == /\ maps = [m \in M |-> Empty] /\ layers = [m \in M |-> <<Empty>>]
         /\ parent = [n \in Nodes |-> None] /\ key = [n \in Nodes |-> None]
         /\ cached = [h \in Hd |-> FALSE] /\ value = [h \in Hd |-> 0] /\ gen = [h \in Hd |-> 0]
-        /\ kind \in KindChoices /\ cls \in ClsChoices
+        /\ kind \in KindChoices /\ cls \in ClsChoices /\ armed = {}
         /\ sealed = FALSE /\ snapRoot = None
         /\ sslot = [m \in M |-> Empty] /\ sdict = [m \in M |-> Empty] /\ shn = [m \in M |-> {}]
         /\ ret = NoRet /\ loadedNow = {}
         /\ abs = [m \in M |-> Empty] /\ stale = {} /\ loads = [h \in Hd |-> 0]
 
-Mutable == ~sealed /\ snapRoot = None       \* the tree is not changed once it is sealed / mirrored
+\* the tree is not changed once it is sealed; nor once it is mirrored, unless Resnap — then a change discards the
+\* snapshot (an older snapshot object is not required to follow, nor to stay as it was: it is no longer looked at)
+Mutable == ~sealed /\ (Resnap \/ snapRoot = None)
+DropSnap == /\ snapRoot' = None /\ shn' = [m \in M |-> {}]
+            /\ sslot' = [m \in M |-> Empty] /\ sdict' = [m \in M |-> Empty]
 Usable == Phased => sealed
 
 ----------------------------------------------------------------------------
@@ -196,14 +205,14 @@ SetItem(m, p, node) ==
           /\ abs' = [t.ab EXCEPT ![w.atgt] = Put(@, l, <<IF node \in M THEN "m" ELSE "h", node>>)]
           /\ stale' = KeepStale(stale \cup {<<pl[1], pl[2], node>> : pl \in Places(node)}, mp2, ly2)
     /\ ret' = NoRet /\ loadedNow' = {}
-    /\ UNCHANGED <<cache, fixed, sealed, snap>>
+    /\ DropSnap /\ UNCHANGED <<cache, fixed, sealed>>
 
 \* what DirectoryResourcePopulator does for nest_on_conflict: handles.maps.insert(0, {})
 PushLayer(m) ==
     /\ "push" \in Ops /\ Mutable /\ m \in Builders /\ Len(layers[m]) < MaxLayers
     /\ layers' = [layers EXCEPT ![m] = <<Empty>> \o @]
     /\ ret' = NoRet /\ loadedNow' = {}
-    /\ UNCHANGED <<maps, parent, key, abs, stale, cache, fixed, sealed, snap>>
+    /\ DropSnap /\ UNCHANGED <<maps, parent, key, abs, stale, cache, fixed, sealed>>
 
 \* ResourceMap.clear: children whose parent is this map are detached, then both tables are emptied
 Clear(m) ==
@@ -221,7 +230,7 @@ Clear(m) ==
     /\ abs' = [abs EXCEPT ![m] = Empty]
     /\ stale' = {t \in stale : t[1] # m}
     /\ ret' = NoRet /\ loadedNow' = {}
-    /\ UNCHANGED <<cache, fixed, sealed, snap>>
+    /\ DropSnap /\ UNCHANGED <<cache, fixed, sealed>>
 
 Seal == /\ Phased /\ ~sealed /\ sealed' = TRUE
         /\ ret' = NoRet /\ loadedNow' = {}
@@ -232,13 +241,23 @@ Seal == /\ Phased /\ ~sealed /\ sealed' = TRUE
 
 NeedLoad(h) == IF CacheTestsFlag THEN ~cached[h] ELSE ~cached[h] \/ kind[h] = "None"
 
-\* handle(): load when the flag is unset, return the stored object
+\* handle(): load when the flag is unset, return the stored object.  A load() that raises (armed) propagates and
+\* leaves the handle as it was: not cached, the next access loads.
 Access(h) ==
-    IF NeedLoad(h)
+    IF NeedLoad(h) /\ h \in armed
+    THEN /\ armed' = armed \ {h} /\ loadedNow' = {} /\ ret' = <<"exc", "LoadFault", 0>>
+         /\ cached' = IF FlagAfterLoad THEN cached ELSE [cached EXCEPT ![h] = TRUE]
+         /\ UNCHANGED <<value, gen, loads>>
+    ELSE IF NeedLoad(h)
     THEN /\ gen' = [gen EXCEPT ![h] = @ + 1] /\ value' = [value EXCEPT ![h] = gen[h] + 1]
          /\ cached' = [cached EXCEPT ![h] = TRUE] /\ loads' = [loads EXCEPT ![h] = @ + 1]
-         /\ loadedNow' = {h} /\ ret' = <<"val", h, gen[h] + 1>>
+         /\ loadedNow' = {h} /\ ret' = <<"val", h, gen[h] + 1>> /\ UNCHANGED armed
     ELSE /\ UNCHANGED cache /\ loadedNow' = {} /\ ret' = <<"val", h, value[h]>>
+
+\* the harness makes the next load() of h fail (only interesting while the next access would load)
+ArmFault(h) == /\ "fault" \in Ops /\ Usable /\ h \notin armed /\ ~cached[h]
+               /\ armed' = armed \cup {h} /\ ret' = NoRet /\ loadedNow' = {}
+               /\ UNCHANGED <<cached, value, gen, loads, tree, fixed, sealed, snap>>
 
 Plain(r) == /\ ret' = r /\ loadedNow' = {} /\ UNCHANGED cache
 
@@ -248,7 +267,7 @@ Call(h) == /\ "call" \in Ops /\ Usable /\ Access(h)
 ClearHandle(h) ==
     /\ "hclear" \in Ops /\ Usable /\ gen[h] < MaxGen
     /\ cached' = [cached EXCEPT ![h] = FALSE] /\ value' = [value EXCEPT ![h] = 0]
-    /\ loads' = [loads EXCEPT ![h] = 0] /\ UNCHANGED gen
+    /\ loads' = [loads EXCEPT ![h] = 0] /\ UNCHANGED <<gen, armed>>
     /\ ret' = NoRet /\ loadedNow' = {}
     /\ UNCHANGED <<tree, fixed, sealed, snap>>
 
@@ -308,7 +327,7 @@ Storable(x, n) == InSlot(x, n) \/ HasDict(x)
 Entry(x, n) == IF n \in DOMAIN maps[x] THEN <<"m", maps[x][n]>> ELSE <<"h", Vis(x)[n]>>
 
 Snapshot(m) ==
-    /\ "snap" \in Ops /\ Usable /\ m \in Receivers /\ snapRoot = None
+    /\ "snap" \in Ops /\ Usable /\ m \in Receivers /\ (Resnap \/ snapRoot = None)
     /\ IF \A x \in Sub(m) : \A n \in AllNames(x) : Storable(x, n)
        THEN /\ snapRoot' = m
             /\ sslot' = [x \in M |-> IF x \in Sub(m) THEN [n \in {n \in AllNames(x) : InSlot(x, n)} |-> Entry(x, n)] ELSE Empty]
@@ -349,7 +368,7 @@ SDelAttr(x, n) == /\ "smut" \in Ops /\ x \in SnapNodes /\ Plain(<<"exc", "ValueE
 Next == \/ (\E n \in Nodes \ {Root}, m \in Builders, p \in Paths : SetItem(m, p, n))
         \/ (\E m \in M : PushLayer(m) \/ Clear(m) \/ Snapshot(m))
         \/ Seal
-        \/ (\E h \in Hd : Call(h) \/ ClearHandle(h))
+        \/ (\E h \in Hd : Call(h) \/ ClearHandle(h) \/ ArmFault(h))
         \/ (\E m \in M, p \in Paths : Get(m, p) \/ GetItem(m, p))
         \/ (\E x \in M, n \in Names : SAttr(x, n) \/ SItem(x, n) \/ SGet(x, n) \/ SSetAttr(x, n) \/ SDelAttr(x, n))
 
@@ -411,6 +430,7 @@ CachedTellsTruth == \A h \in Hd : cached[h] <=> loads[h] = 1
 SameObject ==
     [][\A h \in Hd : /\ (h \in loadedNow' <=> loads'[h] = loads[h] + 1)
                      /\ (h \in loadedNow' => ~cached[h])
+                     /\ (ret' = <<"exc", "LoadFault", 0>> => UNCHANGED <<cached, value, loads>>)
                      /\ (ret'[1] = "val" /\ ret'[2] = h => /\ (h \in loadedNow' <=> ~cached[h])
                                                            /\ ret'[3] = value'[h] /\ cached'[h]
                                                            /\ (cached[h] => ret'[3] = value[h]))]_vars
@@ -429,7 +449,7 @@ SnapshotSucceeds == [][\A m \in M : Snapshot(m) => ret'[1] = "snap"]_vars
 SnapshotReadsThrough ==
     [][\A x \in M, n \in Names : (SItem(x, n) \/ SAttr(x, n)) =>
           LET d == GetDen(x, <<n>>) IN
-          CASE d[1] = "h" -> ret'[1] = "val" /\ ret'[2] = d[2]
+          CASE d[1] = "h" -> (ret'[1] = "val" /\ ret'[2] = d[2]) \/ ret' = <<"exc", "LoadFault", 0>>
             [] d[1] = "m" -> ret' = <<"snap", d[2], 0>>
             [] OTHER -> ret'[1] = "exc"]_vars
 MutationRaisesAndChangesNothing ==
